@@ -6,6 +6,8 @@ import (
 	"context"
 	"fmt"
 	"iter"
+	"math"
+	"reflect"
 	"strconv"
 	"strings"
 	"time"
@@ -22,11 +24,20 @@ import (
 // ---------------------------------------------------------------------------------------------
 
 // value expression: c<int> | r<idx> | n(v,v) nvl | p(v,v) numeric + | g(a,b,t,f) selector over a > b | k(v) cast int->dec->int
+// | u<s|a|m|x|c>(<idx>+<idx>..) ReduceFieldValue (sum / avg cast back to integer / min / max / count) over the named
+// columns, u<op>(*) over all columns the value sees
 type c17Val struct {
 	op   byte
 	n    int
 	args []c17Val
+	red  byte  // 'u': reduction type
+	idx  []int // 'u': the columns; nil = all
 }
+
+func c17Red(red byte, idx ...int) c17Val {
+	return c17Val{op: 'u', red: red, idx: append([]int{}, idx...)}
+}
+func c17RedAll(red byte) c17Val { return c17Val{op: 'u', red: red} }
 
 func c17C(n int) c17Val               { return c17Val{op: 'c', n: n} }
 func c17Ref(i int) c17Val             { return c17Val{op: 'r', n: i} }
@@ -99,6 +110,33 @@ func c17ParseValAt(s string, pos int, depth int) (c17Val, int, bool) {
 			return c17Val{}, pos, false
 		}
 		return c17Ref(n), end, true
+	case 'u':
+		if pos+3 >= len(s) || !strings.ContainsRune("samxc", rune(s[pos+1])) || s[pos+2] != '(' {
+			return c17Val{}, pos, false
+		}
+		red := s[pos+1]
+		p := pos + 3
+		if s[p] == '*' {
+			if p+1 >= len(s) || s[p+1] != ')' {
+				return c17Val{}, pos, false
+			}
+			return c17RedAll(red), p + 2, true
+		}
+		var idx []int
+		for {
+			n, end, ok := c17ParseNat(s, p)
+			if !ok || end >= len(s) {
+				return c17Val{}, pos, false
+			}
+			idx = append(idx, n)
+			if s[end] == ')' {
+				return c17Red(red, idx...), end + 1, true
+			}
+			if s[end] != '+' {
+				return c17Val{}, pos, false
+			}
+			p = end + 1
+		}
 	case 'n', 'p', 'k', 'g':
 		want := map[byte]int{'n': 2, 'p': 2, 'k': 1, 'g': 4}[op]
 		p := pos + 1
@@ -198,7 +236,7 @@ func c17ParseStage(t string) (c17Stage, bool) {
 		}
 		sub := rest[end]
 		switch sub {
-		case 'd', 'r':
+		case 'd', 'r', 'o':
 			return c17StB(i, sub, 0), end+1 == len(rest)
 		case 'a', 'f', 'l':
 			p, e2, ok := c17ParseNat(rest, end+1)
@@ -243,6 +281,15 @@ func c17FmtVal(v c17Val) string {
 		return "c" + strconv.Itoa(v.n)
 	case 'r':
 		return "r" + strconv.Itoa(v.n)
+	case 'u':
+		if v.idx == nil {
+			return "u" + string(v.red) + "(*)"
+		}
+		is := make([]string, len(v.idx))
+		for i, x := range v.idx {
+			is[i] = strconv.Itoa(x)
+		}
+		return "u" + string(v.red) + "(" + strings.Join(is, "+") + ")"
 	}
 	parts := make([]string, len(v.args))
 	for i, a := range v.args {
@@ -334,16 +381,127 @@ func (c17DropOdd) Filter(_ context.Context, result report.Result) (report.Result
 	})), nil
 }
 
-func c17Value(v c17Val, avail []string) (report.Value, error) {
+// Every stage object of a case (field values, filters, datasource filters) is made ONCE per distinct list of
+// construction arguments and used wherever the case names it again: in both pipelines, on both sides of a join, in the
+// post chains of both joins, in every execution.  A stage object is an immutable description, so sharing it must not
+// change any result (the model has value semantics: two occurrences of a stage cannot be told apart).
+type c17Pool struct {
+	vals     map[string]report.Value
+	filters  map[string]report.Filter
+	dfilters map[string]datasource.Filter
+	// the containers handed to the library's constructors, with the hash of everything reachable from them (unexported
+	// fields, maps, spare capacity included) taken when they were made
+	held []c17Held
+}
+
+type c17Held struct {
+	obj  any
+	hash uint64
+}
+
+func c17NewPool() *c17Pool {
+	return &c17Pool{vals: map[string]report.Value{}, filters: map[string]report.Filter{}, dfilters: map[string]datasource.Filter{}}
+}
+
+func (p *c17Pool) hold(obj any) {
+	p.held = append(p.held, c17Held{obj, c17HashOf(obj)})
+}
+
+// k bit: every construction-time object reads as it did when it was made
+func (p *c17Pool) unchanged() bool {
+	for _, h := range p.held {
+		if c17HashOf(h.obj) != h.hash {
+			return false
+		}
+	}
+	return true
+}
+
+// the construction arguments of a value: refs / reduced columns by urn
+func c17ValKey(sb *strings.Builder, v c17Val, avail []string) {
+	sb.WriteByte(v.op)
+	switch v.op {
+	case 'c':
+		sb.WriteString(strconv.Itoa(v.n))
+	case 'r':
+		if v.n >= 0 && v.n < len(avail) {
+			sb.WriteString(avail[v.n])
+		}
+		sb.WriteByte(';')
+	case 'u':
+		sb.WriteByte(v.red)
+		if v.idx == nil {
+			sb.WriteByte('*')
+		}
+		for _, i := range v.idx {
+			if i >= 0 && i < len(avail) {
+				sb.WriteString(avail[i])
+			}
+			sb.WriteByte('+')
+		}
+		sb.WriteByte(';')
+	default:
+		sb.WriteByte('(')
+		for _, a := range v.args {
+			c17ValKey(sb, a, avail)
+			sb.WriteByte(',')
+		}
+		sb.WriteByte(')')
+	}
+}
+
+var c17RedTypes = map[byte]tsquery.ReductionType{'s': tsquery.ReductionTypeSum, 'a': tsquery.ReductionTypeAvg,
+	'm': tsquery.ReductionTypeMin, 'x': tsquery.ReductionTypeMax, 'c': tsquery.ReductionTypeCount}
+
+func c17Value(pool *c17Pool, v c17Val, avail []string) (report.Value, error) {
+	var kb strings.Builder
+	c17ValKey(&kb, v, avail)
+	key := kb.String()
+	if x, ok := pool.vals[key]; ok {
+		return x, nil
+	}
+	x, err := c17MakeValue(pool, v, avail)
+	if err != nil {
+		return nil, err
+	}
+	pool.vals[key] = x
+	return x, nil
+}
+
+func c17MakeValue(pool *c17Pool, v c17Val, avail []string) (report.Value, error) {
 	var args []report.Value
 	for _, a := range v.args {
-		x, err := c17Value(a, avail)
+		x, err := c17Value(pool, a, avail)
 		if err != nil {
 			return nil, err
 		}
 		args = append(args, x)
 	}
 	switch v.op {
+	case 'u':
+		rt, ok := c17RedTypes[v.red]
+		if !ok {
+			return nil, fmt.Errorf("bad reduction")
+		}
+		var red report.Value
+		if v.idx == nil {
+			red = report.NewReduceAllFieldValues(rt)
+		} else {
+			urns := make([]string, 0, len(v.idx)+2) // the caller's list, with spare capacity
+			for _, i := range v.idx {
+				if i < 0 || i >= len(avail) {
+					return nil, fmt.Errorf("reduced column out of range")
+				}
+				urns = append(urns, avail[i])
+			}
+			pool.hold(urns)
+			red = report.NewReduceFieldValues(urns, rt)
+		}
+		if v.red == 'a' {
+			// the average of integers is a decimal: back to an integer (truncation)
+			red = report.NewCastFieldValue(red, tsquery.DataTypeInteger)
+		}
+		return red, nil
 	case 'c':
 		return report.NewConstantFieldValue(tsquery.ValueMeta{DataType: tsquery.DataTypeInteger, Required: true}, int64(v.n)), nil
 	case 'r':
@@ -364,21 +522,55 @@ func c17Value(v c17Val, avail []string) (report.Value, error) {
 	return nil, fmt.Errorf("bad value")
 }
 
-func c17Wrap(ds report.DataSource, fs []report.Filter) report.DataSource {
+func c17Wrap(pool *c17Pool, ds report.DataSource, fs []report.Filter) report.DataSource {
 	if len(fs) == 0 {
 		return ds
 	}
-	return report.NewFilteredDataSource(ds, fs...)
+	// the filter list is the caller's slice (NewFilteredDataSource keeps it): exact capacity + two spare cells
+	own := make([]report.Filter, len(fs), len(fs)+2)
+	copy(own, fs)
+	pool.hold(own)
+	return report.NewFilteredDataSource(ds, own...)
 }
 
 func c17Period(p int) timeseries.AlignmentPeriod {
 	return timeseries.NewFixedAlignmentPeriod(time.Duration(p)*c17Half, time.UTC)
 }
 
-// c17Build puts the chain on top of ds; urns are the urns ds delivers (never written to); returns the result's urns
-func c17Build(ds report.DataSource, chain []c17Stage, urns []string, tag string) (report.DataSource, []string, error) {
+func c17ValKeys(vals []c17Val, avail []string) string {
+	var sb strings.Builder
+	for _, v := range vals {
+		c17ValKey(&sb, v, avail)
+		sb.WriteByte('|')
+	}
+	return sb.String()
+}
+
+// c17Build puts the chain on top of ds; urns are the urns ds delivers (never written to); returns the result's urns.
+// Filters are interned in the pool by their construction arguments (see c17Pool).
+func c17Build(pool *c17Pool, ds report.DataSource, chain []c17Stage, urns []string, tag string) (report.DataSource, []string, error) {
 	cur := append([]string(nil), urns...)
 	var fs []report.Filter
+	intern := func(key string, mk func() (report.Filter, error)) error {
+		f, ok := pool.filters[key]
+		if !ok {
+			var err error
+			if f, err = mk(); err != nil {
+				return err
+			}
+			pool.filters[key] = f
+		}
+		fs = append(fs, f)
+		return nil
+	}
+	dintern := func(key string, mk func() datasource.Filter) datasource.Filter {
+		f, ok := pool.dfilters[key]
+		if !ok {
+			f = mk()
+			pool.dfilters[key] = f
+		}
+		return f
+	}
 	for si, st := range chain {
 		newUrn := fmt.Sprintf("%s%d", tag, si)
 		for _, i := range st.idx {
@@ -386,47 +578,71 @@ func c17Build(ds report.DataSource, chain []c17Stage, urns []string, tag string)
 				return nil, nil, fmt.Errorf("column out of range")
 			}
 		}
+		var err error
 		switch st.kind {
 		case 'D':
 			fs = append(fs, c17DropOdd{})
 		case 'A':
-			val, err := c17Value(st.vals[0], cur)
-			if err != nil {
-				return nil, nil, err
-			}
-			fs = append(fs, report.NewAppendFieldFilter(val, tsquery.AddFieldMeta{Urn: newUrn}))
+			avail := cur
+			err = intern("A"+c17ValKeys(st.vals, avail)+">"+newUrn, func() (report.Filter, error) {
+				val, err := c17Value(pool, st.vals[0], avail)
+				if err != nil {
+					return nil, err
+				}
+				return report.NewAppendFieldFilter(val, tsquery.AddFieldMeta{Urn: newUrn}), nil
+			})
 			cur = append(append([]string(nil), cur...), newUrn)
 		case 'S':
-			var sel []report.SelectedField
 			var nu []string
-			for j, v := range st.vals {
-				avail := append(append([]string(nil), cur...), nu...)
-				val, err := c17Value(v, avail)
-				if err != nil {
-					return nil, nil, err
-				}
-				urn := fmt.Sprintf("%s%d_%d", tag, si, j)
-				sel = append(sel, report.SelectedField{Value: val, Meta: tsquery.AddFieldMeta{Urn: urn}})
-				nu = append(nu, urn)
+			for j := range st.vals {
+				nu = append(nu, fmt.Sprintf("%s%d_%d", tag, si, j))
 			}
-			fs = append(fs, report.NewSelectFieldsFilter(sel))
+			all := append(append([]string(nil), cur...), nu...)
+			base := len(cur)
+			// (a ref may name an already selected field: value j sees all[:base+j])
+			var kb strings.Builder
+			kb.WriteString("S")
+			for j, v := range st.vals {
+				c17ValKey(&kb, v, all[:base+j])
+				kb.WriteString(">" + nu[j] + "|")
+			}
+			err = intern(kb.String(), func() (report.Filter, error) {
+				sel := make([]report.SelectedField, 0, len(st.vals)+2) // the caller's list, with spare capacity
+				for j, v := range st.vals {
+					val, err := c17Value(pool, v, all[:base+j])
+					if err != nil {
+						return nil, err
+					}
+					sel = append(sel, report.SelectedField{Value: val, Meta: tsquery.AddFieldMeta{Urn: nu[j]}})
+				}
+				pool.hold(sel)
+				return report.NewSelectFieldsFilter(sel), nil
+			})
 			cur = nu
 		case 'R':
-			val, err := c17Value(st.vals[0], cur)
-			if err != nil {
-				return nil, nil, err
-			}
-			fs = append(fs, report.NewReplaceFieldFilter(cur[st.idx[0]], val, tsquery.AddFieldMeta{Urn: newUrn}))
+			avail, old := cur, cur[st.idx[0]]
+			err = intern("R"+old+"="+c17ValKeys(st.vals, avail)+">"+newUrn, func() (report.Filter, error) {
+				val, err := c17Value(pool, st.vals[0], avail)
+				if err != nil {
+					return nil, err
+				}
+				return report.NewReplaceFieldFilter(old, val, tsquery.AddFieldMeta{Urn: newUrn}), nil
+			})
 			cur = append([]string(nil), cur...)
 			cur[st.idx[0]] = newUrn
 		case 'O':
-			u := newUrn
-			fs = append(fs, report.NewOverrideFieldMetadataFilter(cur[st.idx[0]], &u, nil, nil))
+			old := cur[st.idx[0]]
+			err = intern("O"+old+">"+newUrn, func() (report.Filter, error) {
+				u := newUrn
+				cm := map[string]any{"o": int64(si), "urn": newUrn} // the caller's override map
+				pool.hold(cm)
+				return report.NewOverrideFieldMetadataFilter(old, &u, nil, cm), nil
+			})
 			cur = append([]string(nil), cur...)
 			cur[st.idx[0]] = newUrn
 		case 'X':
 			drop := map[int]bool{}
-			var names []string
+			names := make([]string, 0, len(st.idx)+2) // the caller's list, with spare capacity
 			for _, i := range st.idx {
 				if drop[i] {
 					return nil, nil, fmt.Errorf("column dropped twice")
@@ -434,7 +650,10 @@ func c17Build(ds report.DataSource, chain []c17Stage, urns []string, tag string)
 				drop[i] = true
 				names = append(names, cur[i])
 			}
-			fs = append(fs, report.NewDropFieldsFilter(names...))
+			err = intern("X"+strings.Join(names, "+"), func() (report.Filter, error) {
+				pool.hold(names)
+				return report.NewDropFieldsFilter(names...), nil
+			})
 			var keep []string
 			for i, u := range cur {
 				if !drop[i] {
@@ -443,58 +662,229 @@ func c17Build(ds report.DataSource, chain []c17Stage, urns []string, tag string)
 			}
 			cur = keep
 		case 'F':
-			val, err := c17Value(st.vals[0], cur)
-			if err != nil {
-				return nil, nil, err
-			}
-			fs = append(fs, report.NewSingleFieldFilter(val, tsquery.AddFieldMeta{Urn: newUrn}))
+			avail := cur
+			err = intern("F"+c17ValKeys(st.vals, avail)+">"+newUrn, func() (report.Filter, error) {
+				val, err := c17Value(pool, st.vals[0], avail)
+				if err != nil {
+					return nil, err
+				}
+				return report.NewSingleFieldFilter(val, tsquery.AddFieldMeta{Urn: newUrn}), nil
+			})
 			cur = []string{newUrn}
 		case 'C':
-			a, err := c17Value(st.vals[0], cur)
-			if err != nil {
-				return nil, nil, err
-			}
-			b, err := c17Value(st.vals[1], cur)
-			if err != nil {
-				return nil, nil, err
-			}
-			fs = append(fs, report.NewConditionFilter(report.NewConditionFieldValue(tsquery.ConditionOperatorGreaterThan, a, b)))
+			avail := cur
+			err = intern("C"+c17ValKeys(st.vals, avail), func() (report.Filter, error) {
+				a, err := c17Value(pool, st.vals[0], avail)
+				if err != nil {
+					return nil, err
+				}
+				b, err := c17Value(pool, st.vals[1], avail)
+				if err != nil {
+					return nil, err
+				}
+				return report.NewConditionFilter(report.NewConditionFieldValue(tsquery.ConditionOperatorGreaterThan, a, b)), nil
+			})
 		case 'G':
-			switch st.sub {
-			case 'f':
-				fs = append(fs, report.NewInterpolatingAlignerFilter(c17Period(st.per), timeseries.FillModeForwardFill))
-			case 'l':
-				fs = append(fs, report.NewInterpolatingAlignerFilter(c17Period(st.per), timeseries.FillModeLinear))
-			default:
-				fs = append(fs, report.NewAlignerFilter(c17Period(st.per)))
-			}
+			err = intern(fmt.Sprintf("G%d%c", st.per, st.sub), func() (report.Filter, error) {
+				switch st.sub {
+				case 'f':
+					return report.NewInterpolatingAlignerFilter(c17Period(st.per), timeseries.FillModeForwardFill), nil
+				case 'l':
+					return report.NewInterpolatingAlignerFilter(c17Period(st.per), timeseries.FillModeLinear), nil
+				}
+				return report.NewAlignerFilter(c17Period(st.per)), nil
+			})
 		case 'B':
 			urn := cur[st.idx[0]]
-			single := report.ToDatasource(c17Wrap(ds, fs), urn)
-			var dfs []datasource.Filter
+			single := report.ToDatasource(c17Wrap(pool, ds, fs), urn)
+			dfs := make([]datasource.Filter, 0, 4) // the caller's list, with spare capacity
+			out := urn
 			switch st.sub {
 			case 'd':
-				dfs = append(dfs, datasource.NewDeltaFilter(false, 0))
+				dfs = append(dfs, dintern("d", func() datasource.Filter { return datasource.NewDeltaFilter(false, 0) }))
 			case 'r':
-				dfs = append(dfs, datasource.NewRateFilter("", 1, false, 0),
-					datasource.NewFieldValueFilter(
-						datasource.NewCastFieldValue(datasource.NewRefFieldValue(), tsquery.DataTypeInteger),
-						tsquery.AddFieldMeta{Urn: urn}))
+				dfs = append(dfs, dintern("r", func() datasource.Filter { return datasource.NewRateFilter("", 1, false, 0) }),
+					dintern("rk"+urn, func() datasource.Filter {
+						return datasource.NewFieldValueFilter(
+							datasource.NewCastFieldValue(datasource.NewRefFieldValue(), tsquery.DataTypeInteger),
+							tsquery.AddFieldMeta{Urn: urn})
+					}))
 			case 'a':
-				dfs = append(dfs, datasource.NewAlignerFilter(c17Period(st.per)))
+				dfs = append(dfs, dintern(fmt.Sprintf("a%d", st.per), func() datasource.Filter { return datasource.NewAlignerFilter(c17Period(st.per)) }))
 			case 'f':
-				dfs = append(dfs, datasource.NewInterpolatingAlignerFilter(c17Period(st.per), timeseries.FillModeForwardFill))
+				dfs = append(dfs, dintern(fmt.Sprintf("f%d", st.per), func() datasource.Filter {
+					return datasource.NewInterpolatingAlignerFilter(c17Period(st.per), timeseries.FillModeForwardFill)
+				}))
 			case 'l':
-				dfs = append(dfs, datasource.NewInterpolatingAlignerFilter(c17Period(st.per), timeseries.FillModeLinear))
+				dfs = append(dfs, dintern(fmt.Sprintf("l%d", st.per), func() datasource.Filter {
+					return datasource.NewInterpolatingAlignerFilter(c17Period(st.per), timeseries.FillModeLinear)
+				}))
+			case 'o':
+				// datasource-level OverrideFieldMetadata: new urn and a caller-supplied custom-metadata map
+				out = newUrn
+				dfs = append(dfs, dintern("o"+newUrn, func() datasource.Filter {
+					u := newUrn
+					cm := map[string]any{"o": int64(si), "urn": newUrn}
+					pool.hold(cm)
+					return datasource.NewOverrideFieldMetadataFilter(&u, nil, cm)
+				}))
 			}
+			pool.hold(dfs)
 			ds = report.FromDatasource(datasource.NewFilteredDataSource(single, dfs...))
 			fs = nil
-			cur = []string{urn}
+			cur = []string{out}
 		default:
 			return nil, nil, fmt.Errorf("bad stage")
 		}
+		if err != nil {
+			return nil, nil, err
+		}
 	}
-	return c17Wrap(ds, fs), cur, nil
+	return c17Wrap(pool, ds, fs), cur, nil
+}
+
+// ---------------------------------------------------------------------------------------------
+// construction-time state: a hash of everything reachable from an object (unexported fields, maps, pointers, the spare
+// capacity of slices), functions and channels excepted
+// ---------------------------------------------------------------------------------------------
+
+// a list of datasources is hashed by the identity of its elements only (what is below them is held separately)
+type c17Shallow []report.DataSource
+
+const (
+	c17FnvOff   = 14695981039346656037
+	c17FnvPrime = 1099511628211
+)
+
+type c17Hasher struct {
+	h    uint64
+	seen map[uintptr]bool
+}
+
+func (x *c17Hasher) u64(v uint64) {
+	h := (x.h ^ v) * c17FnvPrime
+	x.h = h ^ (h >> 29)
+}
+
+func (x *c17Hasher) str(s string) {
+	x.u64(uint64(len(s)))
+	i := 0
+	for ; i+8 <= len(s); i += 8 {
+		x.u64(uint64(s[i]) | uint64(s[i+1])<<8 | uint64(s[i+2])<<16 | uint64(s[i+3])<<24 |
+			uint64(s[i+4])<<32 | uint64(s[i+5])<<40 | uint64(s[i+6])<<48 | uint64(s[i+7])<<56)
+	}
+	var tail uint64
+	for sh := uint(0); i < len(s); i, sh = i+1, sh+8 {
+		tail |= uint64(s[i]) << sh
+	}
+	x.u64(tail)
+}
+
+func (x *c17Hasher) walk(v reflect.Value, depth int) {
+	if depth > 40 {
+		x.u64(0xdeadbeef)
+		return
+	}
+	x.u64(uint64(v.Kind()))
+	switch v.Kind() {
+	case reflect.Bool:
+		if v.Bool() {
+			x.u64(1)
+		} else {
+			x.u64(0)
+		}
+	case reflect.Int, reflect.Int8, reflect.Int16, reflect.Int32, reflect.Int64:
+		x.u64(uint64(v.Int()))
+	case reflect.Uint, reflect.Uint8, reflect.Uint16, reflect.Uint32, reflect.Uint64, reflect.Uintptr:
+		x.u64(v.Uint())
+	case reflect.Float32, reflect.Float64:
+		x.u64(math.Float64bits(v.Float()))
+	case reflect.String:
+		x.str(v.String())
+	case reflect.Pointer:
+		if v.IsNil() {
+			x.u64(0)
+			return
+		}
+		p := v.Pointer()
+		if x.seen[p] {
+			x.u64(2)
+			return
+		}
+		if x.seen == nil {
+			x.seen = map[uintptr]bool{}
+		}
+		x.seen[p] = true
+		x.walk(v.Elem(), depth+1)
+	case reflect.Interface:
+		if v.IsNil() {
+			x.u64(0)
+			return
+		}
+		x.str(v.Elem().Type().String())
+		x.walk(v.Elem(), depth+1)
+	case reflect.Struct:
+		for i := 0; i < v.NumField(); i++ {
+			x.walk(v.Field(i), depth+1)
+		}
+	case reflect.Slice:
+		if v.IsNil() {
+			x.u64(0)
+			return
+		}
+		x.u64(uint64(v.Len()))
+		x.u64(uint64(v.Cap()))
+		full := v.Slice(0, v.Cap()) // spare cells included
+		for i := 0; i < full.Len(); i++ {
+			x.walk(full.Index(i), depth+1)
+		}
+	case reflect.Array:
+		for i := 0; i < v.Len(); i++ {
+			x.walk(v.Index(i), depth+1)
+		}
+	case reflect.Map:
+		if v.IsNil() {
+			x.u64(0)
+			return
+		}
+		x.u64(uint64(v.Len()))
+		// order independent: the sum of the entries' hashes
+		var sum uint64
+		it := v.MapRange()
+		for it.Next() {
+			sub := c17Hasher{h: c17FnvOff, seen: x.seen}
+			sub.walk(it.Key(), depth+1)
+			sub.walk(it.Value(), depth+1)
+			x.seen = sub.seen
+			sum += sub.h
+		}
+		x.u64(sum)
+	default:
+		// functions, channels, unsafe pointers: not state of a description
+	}
+}
+
+func c17HashOf(obj any) uint64 {
+	x := c17Hasher{h: c17FnvOff}
+	if sh, ok := obj.(c17Shallow); ok {
+		x.u64(uint64(len(sh)))
+		x.u64(uint64(cap(sh)))
+		for _, d := range sh[:cap(sh)] {
+			if d == nil {
+				x.u64(0)
+				continue
+			}
+			rv := reflect.ValueOf(d)
+			if rv.Kind() == reflect.Pointer {
+				x.u64(uint64(rv.Pointer()))
+			} else {
+				x.str(rv.Type().String())
+			}
+		}
+		return x.h
+	}
+	x.walk(reflect.ValueOf(obj), 0)
+	return x.h
 }
 
 // ---------------------------------------------------------------------------------------------
@@ -717,7 +1107,25 @@ func c17Bit(b bool) string {
 type c17Rows = []timeseries.TsRecord[[]any]
 
 // builds the result datasources of a case (one for the join modes, two otherwise); alt = consumed interleaved
-func c17Plan(src *c17Source, mode string, chP, chQ, chJ []c17Stage) (outs []report.DataSource, plain report.DataSource, alt bool, err error) {
+// modes with a shared tag: seqs, alts, tj<I|L|F><s|a>s, tk...s — the new urns of Q carry P's tag, so equal stages at equal
+// positions over equal columns are THE SAME filter object in both pipelines (in the other modes only values and
+// filters that do not name a new urn are shared)
+func c17SharedMode(mode string) (base string, shared bool) {
+	if mode == "seqs" || mode == "alts" {
+		return mode[:3], true
+	}
+	if len(mode) == 5 && (strings.HasPrefix(mode, "tj") || strings.HasPrefix(mode, "tk")) && mode[4] == 's' {
+		return mode[:4], true
+	}
+	return mode, false
+}
+
+func c17Plan(pool *c17Pool, src *c17Source, mode string, chP, chQ, chJ []c17Stage) (outs []report.DataSource, plain report.DataSource, alt bool, err error) {
+	mode, shared := c17SharedMode(mode)
+	tagQ := "q"
+	if shared {
+		tagQ = "p"
+	}
 	jtOf := func(c byte) (report.JoinType, bool) {
 		switch c {
 		case 'I':
@@ -734,8 +1142,11 @@ func c17Plan(src *c17Source, mode string, chP, chQ, chJ []c17Stage) (outs []repo
 		for _, u := range urns {
 			all = append(all, u...)
 		}
-		var j report.DataSource = report.NewJoinDatasource(report.NewListMultiDatasource(sides), jt)
-		j, _, e := c17Build(j, chJ, all, "j")
+		own := make([]report.DataSource, len(sides), len(sides)+2) // the caller's list, with spare capacity
+		copy(own, sides)
+		pool.hold(c17Shallow(own))
+		var j report.DataSource = report.NewJoinDatasource(report.NewListMultiDatasource(own), jt)
+		j, _, e := c17Build(pool, j, chJ, all, "j")
 		return j, e
 	}
 	plain = src.datasource(0)
@@ -746,11 +1157,11 @@ func c17Plan(src *c17Source, mode string, chP, chQ, chJ []c17Stage) (outs []repo
 			dsP, dsQ = src.datasource(0), src.datasource(0)
 			alt = true
 		}
-		p, _, e := c17Build(dsP, chP, src.urns[0], "p")
+		p, _, e := c17Build(pool, dsP, chP, src.urns[0], "p")
 		if e != nil {
 			return nil, nil, false, e
 		}
-		q, _, e := c17Build(dsQ, chQ, src.urns[0], "q")
+		q, _, e := c17Build(pool, dsQ, chQ, src.urns[0], tagQ)
 		if e != nil {
 			return nil, nil, false, e
 		}
@@ -769,11 +1180,11 @@ func c17Plan(src *c17Source, mode string, chP, chQ, chJ []c17Stage) (outs []repo
 		if three {
 			dsQ, urnsQ = src.datasource(2), src.urns[2]
 		}
-		p, up, e := c17Build(dsP, chP, src.urns[0], "p")
+		p, up, e := c17Build(pool, dsP, chP, src.urns[0], "p")
 		if e != nil {
 			return nil, nil, false, e
 		}
-		q, uq, e := c17Build(dsQ, chQ, urnsQ, "q")
+		q, uq, e := c17Build(pool, dsQ, chQ, urnsQ, "q")
 		if e != nil {
 			return nil, nil, false, e
 		}
@@ -792,7 +1203,7 @@ func c17Plan(src *c17Source, mode string, chP, chQ, chJ []c17Stage) (outs []repo
 			return nil, nil, false, fmt.Errorf("bad mode")
 		}
 		for i, ch := range [][]c17Stage{chP, chQ} {
-			side, us, e := c17Build(src.datasource(1), ch, src.urns[1], []string{"p", "q"}[i])
+			side, us, e := c17Build(pool, src.datasource(1), ch, src.urns[1], []string{"p", tagQ}[i])
 			if e != nil {
 				return nil, nil, false, e
 			}
@@ -824,7 +1235,8 @@ func c17RunCombo(lay string, n, w, k, m int, mode string, chP, chQ, chJ []c17Sta
 	ctx := context.Background()
 	from, to := c17Base.Add(-time.Hour), c17Base.Add(time.Hour)
 	src := c17MakeSource(lay, n, w, k, m)
-	outs, plain, alt, err := c17Plan(src, mode, chP, chQ, chJ)
+	pool := c17NewPool()
+	outs, plain, alt, err := c17Plan(pool, src, mode, chP, chQ, chJ)
 	if err != nil {
 		return "bad-case"
 	}
@@ -898,7 +1310,7 @@ func c17RunCombo(lay string, n, w, k, m int, mode string, chP, chQ, chJ []c17Sta
 		}
 		fmt.Fprintf(&sb, "%s=%s a%s=%s m%s=%s ", name, fr, name, src.alias(rows[i]), name, fm)
 	}
-	fmt.Fprintf(&sb, "u=%s x=%s y=%s", c17Bit(src.unchanged()), c17Bit(src.original(plainRows)), c17Bit(same))
+	fmt.Fprintf(&sb, "u=%s x=%s y=%s k=%s", c17Bit(src.unchanged()), c17Bit(src.original(plainRows)), c17Bit(same), c17Bit(pool.unchanged()))
 	return sb.String()
 }
 
@@ -973,6 +1385,23 @@ func c17ValReq(v c17Val, cols []c17Col) (req bool, ok bool) {
 	}
 	switch v.op {
 	case 'c':
+		return true, true
+	case 'u':
+		// every reduced column must be required (all columns are integers); at least one column
+		idx := v.idx
+		if idx == nil {
+			for i := range cols {
+				idx = append(idx, i)
+			}
+		}
+		if len(idx) == 0 || !strings.ContainsRune("samxc", rune(v.red)) {
+			return false, false
+		}
+		for _, i := range idx {
+			if i < 0 || i >= len(cols) || !cols[i].req {
+				return false, false
+			}
+		}
 		return true, true
 	case 'r':
 		if v.n < 0 || v.n >= len(cols) {
@@ -1073,8 +1502,11 @@ func c17PlanChain(chain []c17Stage, cols []c17Col, tag string) ([]c17Col, bool) 
 			}
 		case 'B':
 			c := cur[st.idx[0]]
-			if st.sub != 0 && !c.req {
+			if st.sub != 0 && st.sub != 'o' && !c.req {
 				return nil, false
+			}
+			if st.sub == 'o' {
+				c.urn = newUrn
 			}
 			cur = []c17Col{c}
 		default:
@@ -1106,10 +1538,15 @@ func c17PlanJoin(kind byte, sides [][]c17Col) ([]c17Col, bool) {
 func c17PlanCase(lay string, w int, mode string, chP, chQ []c17Stage) ([][]c17Col, bool) {
 	one := func(cols []c17Col, ok bool) ([][]c17Col, bool) { return [][]c17Col{cols}, ok }
 	s, t, v := c17SrcCols(lay, w, "s"), c17SrcCols(lay, w, "t"), c17SrcCols(lay, w, "v")
+	mode, shared := c17SharedMode(mode)
+	tagQ := "q"
+	if shared {
+		tagQ = "p"
+	}
 	switch {
 	case mode == "seq" || mode == "alt":
 		_, ok1 := c17PlanChain(chP, s, "p")
-		_, ok2 := c17PlanChain(chQ, s, "q")
+		_, ok2 := c17PlanChain(chQ, s, tagQ)
 		return nil, ok1 && ok2
 	case strings.HasPrefix(mode, "join"):
 		p, ok1 := c17PlanChain(chP, s, "p")
@@ -1128,7 +1565,7 @@ func c17PlanCase(lay string, w int, mode string, chP, chQ []c17Stage) ([][]c17Co
 	case strings.HasPrefix(mode, "tj") || strings.HasPrefix(mode, "tk"):
 		var both [][]c17Col
 		for i, ch := range [][]c17Stage{chP, chQ} {
-			side, ok := c17PlanChain(ch, t, []string{"p", "q"}[i])
+			side, ok := c17PlanChain(ch, t, []string{"p", tagQ}[i])
 			if !ok {
 				return nil, false
 			}
@@ -1194,6 +1631,33 @@ func c17Alphabet(cols []c17Col, salt int) []c17Stage {
 	return out
 }
 
+// the stage kinds of round 7, instantiated for the columns the stage receives: ReduceFieldValue (explicit urns / all
+// fields; sum, avg, min, max, count) inside append / select / replace / single field / condition / a numeric
+// expression, OverrideFieldMetadata with a custom-metadata map (report and datasource level).  Stages the library would
+// reject (a reduced column that is optional) are left out.
+func c17Round7Stages(cols []c17Col, salt int) []c17Stage {
+	L := len(cols) - 1
+	cand := []c17Stage{
+		c17StA(c17Red('s', 0)),
+		c17StA(c17RedAll('x')),
+		c17StS(c17Red('a', 0, L), c17Ref(0), c17RedAll('m')),
+		c17StR(0, c17Red('c', L)),
+		c17StR(L, c17RedAll('s')),
+		c17StF(c17Red('m', 0, L)),
+		c17StC(c17RedAll('s'), c17C(150+salt)),
+		c17StA(c17Plus(c17Red('s', 0), c17Ref(L))),
+		c17StA(c17RedAll('a')),
+		c17StB(L, 'o', 0),
+	}
+	var out []c17Stage
+	for _, st := range cand {
+		if _, ok := c17PlanChain([]c17Stage{st}, cols, "x"); ok {
+			out = append(out, st)
+		}
+	}
+	return out
+}
+
 func c17AllChains(cols []c17Col, maxLen, salt int) [][]c17Stage {
 	var out [][]c17Stage
 	var rec func(ch []c17Stage, cur []c17Col)
@@ -1225,7 +1689,7 @@ func c17EmitQ(c *Ctx, lay string, n, w int, caps, mode string, chP, chQ, chJ []c
 			}
 		}
 	}
-	if !(mode == "seq" || mode == "alt") {
+	if base, _ := c17SharedMode(mode); !(base == "seq" || base == "alt") {
 		ext++
 	}
 	c.Case(ext >= 2 && n >= 2, fmt.Sprintf("Q %s n=%d w=%d caps=%s %s | %s | %s | %s", lay, n, w, caps, mode,
@@ -1250,7 +1714,10 @@ func c17Post(c *Ctx, outs [][]c17Col) []c17Stage {
 }
 
 func c17PostFor(c *Ctx, cols []c17Col) []c17Stage {
-	switch c.Rng.Intn(4) {
+	switch c.Rng.Intn(5) {
+	case 4:
+		// a reduce field value over the joined row (only planable when every column is required: inner joins)
+		return []c17Stage{c17StA(c17RedAll("samxc"[c.Rng.Intn(5)]))}
 	case 1:
 		return []c17Stage{c17StA(c17Ref(c.Rng.Intn(len(cols))))}
 	case 2:
@@ -1355,6 +1822,122 @@ func genC17Q(c *Ctx) {
 			}
 		}
 	}
+	// (6) round 7: reduce field values, override maps, and SHARED stage objects (see c17Pool: equal construction
+	// arguments = the same object).  Every round-7 stage kind alone and next to every stage kind of the alphabet (both
+	// positions); every such chain (a) as P and Q at once under one tag (every filter object shared by two pipelines
+	// that are consumed one after the other / alternately / as S JOIN P, S JOIN Q), (b) against its own first stage
+	// (prefix shared), (c) against a one-stage pipeline holding the same field value under another tag (the value
+	// object shared by two different filters, also on the two sides of one join); every chain of length 2 of the old
+	// alphabet as P and Q at once.
+	sharedModes := []string{"seqs", "alts", "tjIss", "tjLss", "tjFss", "tjIas", "tjLas", "tjFas", "tkIss", "tkLss", "tkFss", "tkIas", "tkLas", "tkFas"}
+	plainModes := append([]string{"seq", "alt"}, c17JoinModes...)
+	emitShared := func(lay string, capsText string, ch []c17Stage, k int) {
+		done := 0
+		for off := 0; off < len(sharedModes) && done < k; off++ {
+			mode := sharedModes[(idx*3+off)%len(sharedModes)]
+			if cols, ok := c17PlanCase(lay, w, mode, ch, ch); ok {
+				var post []c17Stage
+				if cols != nil {
+					post = c17Post(c, cols)
+				}
+				c17EmitQ(c, lay, n, w, capsText, mode, ch, ch, post)
+				done++
+			}
+		}
+	}
+	for li, srcCols := range [][]c17Col{plain, withNil} {
+		var chains [][]c17Stage
+		add := func(ch []c17Stage) {
+			if _, ok := c17PlanChain(ch, srcCols, "x"); ok {
+				chains = append(chains, ch)
+			}
+		}
+		for _, e := range c17Round7Stages(srcCols, 0) {
+			add([]c17Stage{e})
+			after, ok := c17PlanChain([]c17Stage{e}, srcCols, "x")
+			if ok {
+				for _, x := range c17Alphabet(after, 10) {
+					add([]c17Stage{e, x})
+				}
+				for _, x := range c17Round7Stages(after, 10) {
+					add([]c17Stage{e, x})
+				}
+			}
+		}
+		for _, x := range c17Alphabet(srcCols, 0) {
+			after, ok := c17PlanChain([]c17Stage{x}, srcCols, "x")
+			if !ok {
+				continue
+			}
+			for _, e := range c17Round7Stages(after, 10) {
+				add([]c17Stage{x, e})
+			}
+		}
+		for _, ch := range chains {
+			idx++
+			lay := []string{"sep", "pack"}[idx%2]
+			if li == 1 {
+				lay = []string{"sepn", "packn"}[idx%2]
+			}
+			// (a) P = Q = ch, one tag
+			emitShared(lay, caps, ch, 2)
+			// (b) the prefix
+			if len(ch) == 2 {
+				c17EmitQ(c, lay, n, w, caps, []string{"seqs", "alts"}[(idx/2)%2], ch, ch[:1], nil)
+			}
+			// (c) the same field value under another tag: sequential / alternating, and one join mode
+			other := ch[len(ch)-1:]
+			if _, ok := c17PlanChain(other, srcCols, "q"); !ok {
+				other = ch[:1]
+			}
+			c17EmitQ(c, lay, n, w, caps, []string{"seq", "alt"}[(idx/2)%2], ch, other, nil)
+			for off := 0; off < len(c17JoinModes); off++ {
+				if c17TryJoin(c, lay, n, w, caps, c17JoinModes[(idx*5+off)%len(c17JoinModes)], ch, other) {
+					break
+				}
+			}
+		}
+	}
+	for _, ch := range two {
+		if len(ch) == 2 {
+			idx++
+			emitShared(lays[idx%2], caps, ch, 1)
+		}
+	}
+	// every pair of one-stage pipelines over the round-7 kinds in EVERY mode (thorough: also against the old alphabet)
+	{
+		r7 := [][]c17Stage{nil}
+		for _, e := range c17Round7Stages(plain, 0) {
+			r7 = append(r7, []c17Stage{e})
+		}
+		others := r7
+		if c.Thorough {
+			others = append(append([][]c17Stage(nil), r7...), one[1:]...)
+		}
+		for _, p := range r7 {
+			for qi, q := range others {
+				if len(p) == 0 && len(q) == 0 {
+					continue
+				}
+				idx++
+				caps := caps
+				if qi >= len(r7) || (len(p) > 0 && len(q) > 0 && c17FmtChain(p) != c17FmtChain(q)) {
+					caps = c17CapsDiag // (the capacities are orthogonal to which objects are shared)
+				}
+				for mi, mode := range append(append([]string(nil), plainModes...), sharedModes...) {
+					cols, ok := c17PlanCase(lays[(idx+mi)%2], w, mode, p, q)
+					if !ok {
+						continue
+					}
+					var post []c17Stage
+					if cols != nil {
+						post = c17Post(c, cols)
+					}
+					c17EmitQ(c, lays[(idx+mi)%2], n, w, caps, mode, p, q, post)
+				}
+			}
+		}
+	}
 	// (5) seeded random larger ones
 	cnt := c.Pick(600, 20000)
 	for i := 0; i < cnt; i++ {
@@ -1367,11 +1950,13 @@ func genC17Q(c *Ctx) {
 		}
 		capList = append(capList, "0:0")
 		mode := "seq"
-		switch c.Rng.Intn(5) {
+		switch c.Rng.Intn(6) {
 		case 1:
 			mode = "alt"
 		case 2, 3, 4:
 			mode = c17JoinModes[c.Rng.Intn(len(c17JoinModes))]
+		case 5:
+			mode = sharedModes[c.Rng.Intn(len(sharedModes))]
 		}
 		srcP, srcQ := "s", "s"
 		switch mode[:2] {
@@ -1382,6 +1967,17 @@ func genC17Q(c *Ctx) {
 		}
 		p := c17RandChain(c, c17SrcCols(lay, rw, srcP), 4, "p")
 		q := c17RandChain(c, c17SrcCols(lay, rw, srcQ), 4, "q")
+		if _, shared := c17SharedMode(mode); shared {
+			// one tag: Q = a prefix of P (the same filter objects) + a tail of its own
+			k := c.Rng.Intn(len(p) + 1)
+			q = append([]c17Stage(nil), p[:k]...)
+			if after, ok := c17PlanChain(q, c17SrcCols(lay, rw, srcQ), "p"); ok && c.Rng.Intn(3) > 0 {
+				q = append(q, c17RandChain(c, after, 2, "p")...)
+			}
+			if _, ok := c17PlanCase(lay, rw, mode, p, q); !ok {
+				q = p
+			}
+		}
 		var post []c17Stage
 		if mode != "seq" && mode != "alt" {
 			cols, ok := c17PlanCase(lay, rw, mode, p, q)
@@ -1422,8 +2018,29 @@ func c17RandVal(c *Ctx, cols []c17Col, depth int, wantReq int) c17Val {
 		v = c17Ref(c.Rng.Intn(len(cols)))
 	case k < 6:
 		v = c17Nvl(c17RandVal(c, cols, depth-1, 0), c17RandVal(c, cols, depth-1, 1))
-	case k < 8:
+	case k < 7:
 		v = c17Plus(c17RandVal(c, cols, depth-1, 0), c17RandVal(c, cols, depth-1, 0))
+	case k < 8:
+		// a reduce field value over required columns (explicit list, possibly with a repeated column, or all)
+		var reqd []int
+		for i, col := range cols {
+			if col.req {
+				reqd = append(reqd, i)
+			}
+		}
+		red := "samxc"[c.Rng.Intn(5)]
+		switch {
+		case len(reqd) == 0:
+			v = c17C(c.Rng.Range(-50, 250))
+		case len(reqd) == len(cols) && c.Rng.Intn(3) == 0:
+			v = c17RedAll(red)
+		default:
+			var idx []int
+			for x := c.Rng.Range(1, 3); x > 0; x-- {
+				idx = append(idx, reqd[c.Rng.Intn(len(reqd))])
+			}
+			v = c17Red(red, idx...)
+		}
 	case k < 9:
 		v = c17Cast(c17RandVal(c, cols, depth-1, 0))
 	default:
@@ -1481,7 +2098,7 @@ func c17RandChain(c *Ctx, cols []c17Col, maxLen int, tag string) []c17Stage {
 			case 10:
 				st = c17StC(c17RandVal(c, cur, 1, 1), c17C(c.Rng.Range(0, 400)))
 			case 11:
-				sub := []byte{0, 'd', 'r', 'a', 'f', 'l'}[c.Rng.Intn(6)]
+				sub := []byte{0, 'd', 'r', 'a', 'f', 'l', 'o'}[c.Rng.Intn(7)]
 				per := 0
 				if sub == 'a' || sub == 'f' || sub == 'l' {
 					per = c.Rng.Range(1, 7)
